@@ -7,7 +7,8 @@ import SqiGen.VerifGuard
        -> guard=<0|1> inrange=<0|1> safe=<0|1> bad=<first out-of-bounds access | ->
    verif.dec <dim2|heur> <lvl> <gen|none> <gen|0|1> <pk: c a h0 h1> <sig fields> <oracle fields>
        -> v=<0|1> stage=<0..4>
-   verif.checks -> which validity checks the translator found in the C text
+   verif.checks -> which validity checks the translator found in the C text; nist = per entry point of src/sqisign.c:
+                   1 stub returning non-zero, 0 stub returning 0, w wired to real code
    sig fields  dim2: c a bt trl m00 m01 m10 m11 chall challB ha0 ha1 hc0 hc1      oracle: ker o1 o2 o3 o4 o5 o6 split h
                heur: c a trl ha0 ha1 x hintB b0 d0 b1 d1 c0 e0                      oracle: ker o1 o2 o3 o4 o5 o6 split h h2 -/
 namespace SqiModel.Drv.Verify
@@ -69,7 +70,8 @@ def accLine (g inr : Bool) (l : List Access) : String :=
 
 def handle : List String → Option String
   | "verif.checks" :: [] =>
-      some s!"dim2={b2s checksNowDim2} heur={b2s checksNowHeur} guardDim2={b2s SqiGen.VerifGuard.dim2Present} guardHeur={b2s SqiGen.VerifGuard.heurPresent}"
+      let nist := String.join (SqiGen.VerifGuard.nistApi.map fun e => if e.2.1 then b2s (decide (e.2.2 ≠ 0)) else "w")
+      some s!"dim2={b2s checksNowDim2} heur={b2s checksNowHeur} guardDim2={b2s SqiGen.VerifGuard.dim2Present} guardHeur={b2s SqiGen.VerifGuard.heurPresent} nist={nist}"
   | "verif.acc" :: "dim2" :: lv :: gm :: rest => do
       let K ← lvl? lv
       let pk ← pk? (rest.take 4)
